@@ -166,7 +166,7 @@ pub fn run(ctx: &Ctx) -> Report {
     // regression corpus first
     for (cfg, ops) in corpus() {
         // the model side is skipped for the cases made of thousands of calls (oracle only: real writer, real reader)
-        check_case(&mut rep, &mut model, &cfg, &ops, ops.len() < 300);
+        check_case(&mut rep, &mut model, &cfg, &ops, ops.len() < 1500);
     }
     if CONSTS.scaled {
         // exhaustive alignment sweep: one file of every length 0..=3*chunk+20 and 0..=2*block+5
@@ -256,9 +256,9 @@ pub fn corpus() -> Vec<(Cfg, Vec<Op>)> {
         ops.extend([Op::End(0), Op::Finalize]);
         if !CONSTS.scaled || level == 5 { v.push((Cfg { layers: L_COMP, level, recipients: vec![], reader: 0 }, ops)); }
     }
-    // many files open at once (20), closed oldest first, the others still being written
-    {
-        let n = 20usize;
+    // many files open at once (20; and 66, 130, 258: ids beyond 64, 128 and 256 open together), closed oldest
+    // first, the others still being written
+    for n in [20usize, 66, 130, 258] {
         let mut ops: Vec<Op> = (0..n).map(|i| Op::Start(format!("w{i}"))).collect();
         for i in 0..n { ops.push(Op::Append { id: i as u64, size: 5, src: rng.bytes(5, 3) }); }
         for i in 0..n {
